@@ -415,6 +415,10 @@ func Gen(r *R, o *Options) *Def {
 		k := ""
 		if d.Proj == "lcc" && r.Bool() {
 			k = " +k_0=" + F(r.Range(0.9, 1.1))
+		} else if d.Proj != "lcc" && r.Chance(0.15) {
+			// the equal-area and equidistant conics have no scale factor: a +k_0 in their definition
+			// is ignored (by the port and by proj4js alike), forwards and backwards
+			k = " +k_0=" + F(r.Range(0.9, 1.1))
 		}
 		d.Params = " +lat_1=" + F(sgn*l1) + " +lat_2=" + F(sgn*l2) + " +lat_0=" + F(sgn*l0) + " +lon_0=" + F(lon0) + k + fo
 		d.DLon = 170
@@ -540,6 +544,16 @@ func clauseRe(name string) *regexp.Regexp { return clauseRes[name] }
 // leaves out is written with a non-default value. what names the clause. The twin has
 // the same projection, ellipsoid, datum and units; nil if no clause qualifies.
 func Twin(r *R, d *Def) (t *Def, what string) {
+	if d.Proj == "utm" && r.Bool() {
+		// the same zone in the other hemisphere's convention (false northing 10 000 km or none)
+		c := *d
+		if strings.Contains(d.Params, " +south") {
+			c.Params = strings.Replace(d.Params, " +south", "", 1)
+			return &c, "south:omitted"
+		}
+		c.Params += " +south"
+		return &c, "south:added"
+	}
 	names := []string{"x_0", "y_0"}
 	switch d.Proj {
 	case "merc":
